@@ -520,10 +520,11 @@ namespace
         o.max_side = max_side;
         o.max_profile = max_side * max_side;
         o.allow_overrides = rng.chance(0.3);
+        const std::size_t min_nodes = rng.chance(0.15) ? 3 : 24;  // sometimes fewer nodes than threads
         for (int tries = 0; tries < 50; ++tries)
         {
             e.g = gen_grid_spec(rng, o);
-            if (e.g.size() >= 24)
+            if (e.g.size() >= min_nodes)
                 break;
         }
         e.R = ref_geom(e.g);
@@ -613,6 +614,18 @@ namespace
             Digest DS = route_digest(*SG.graph, flat_vec(hs));
             for (int rep = 0; rep < repeats; ++rep)
             {
+                if (rep > 0)
+                {
+                    // a fresh field for each repeat: a block that is skipped leaves observably stale routes
+                    int cls2 = static_cast<int>(rng.below(n_field_classes));
+                    in.field_cls = field_class_name(cls2);
+                    in.z = gen_field_spec(rng, env.g, env.R, cls2);
+                    hash_inputs(ch, in);
+                    z1 = to_arr(env.g, in.z);
+                    z2 = to_arr(env.g, in.z);
+                    const arr_t& hs2 = SG.graph->update_routes(z1);
+                    DS = route_digest(*SG.graph, flat_vec(hs2));
+                }
                 hist.push_back("update_routes(" + in.field_cls + ", threads=" + std::to_string(t) + ")");
                 std::uint64_t s0 = M.seq.load(std::memory_order_relaxed);
                 const arr_t& hp = PG.graph->update_routes(z2);
@@ -640,10 +653,14 @@ namespace
             {
                 auto dir = kk == 0 ? fs::flow_graph_traversal_dir::breadth_upstream : fs::flow_graph_traversal_dir::any;
                 std::vector<double> ref = run_kernel(*SG.graph, dir, 1, 0, 0, kin);
-                int reps = std::max(1, repeats / 2);
+                int reps = std::max(2, repeats / 2);
+                int kt = t;  // first: same thread count as the router (no resize), then sticky / random
                 for (int rep = 0; rep < reps; ++rep)
                 {
-                    int kt = static_cast<int>(rng.range(2, 16));
+                    if (rep > 0 && rng.chance(0.5))
+                        kt = static_cast<int>(rng.range(2, 16));
+                    else if (rep == 0 && rng.chance(0.4))
+                        kt = static_cast<int>(rng.range(2, 16));
                     int mb = static_cast<int>(rng.pick(std::vector<long>{ 0, 0, 1, 7, 1000000 }));
                     int ml = static_cast<int>(rng.pick(std::vector<long>{ 0, 0, 1, 50, 1000000 }));
                     hist.push_back(std::string(kk == 0 ? "kernel(breadth_upstream" : "kernel(any") + ", threads=" + std::to_string(kt) + ", min_block=" + std::to_string(mb) + ", min_level=" + std::to_string(ml) + ")");
